@@ -219,11 +219,131 @@ proof! {
 	}
 }
 
+proof! {
+	[hash_mix, sort] fn inputs_wire_order_by_version() {
+		// Inputs::write, writer side only (the body reader is what made the round-trip query too
+		// heavy): two features-and-commit inputs, in either order of their own (hash of features
+		// and commitment) ordering. At v1/v2 both inputs travel as they are (34 bytes each, order
+		// kept). At v3+ only the commitments travel and they must be written in ascending
+		// hash-of-commitment order - the order the v3 reader's sorted-and-unique check demands
+		// (see sorted_unique_*) - whatever the order of the 34-byte inputs was.
+		use grin_core::core::transaction::CommitWrapper;
+		use grin_core::core::Inputs;
+		let v = any_version();
+		let f1: bool = nd::any();
+		let f2: bool = nd::any();
+		let of = |c: bool| if c { OutputFeatures::Coinbase } else { OutputFeatures::Plain };
+		let c1 = any_commit();
+		let c2 = any_commit();
+		let i1 = Input::new(of(f1), c1);
+		let i2 = Input::new(of(f2), c2);
+		let inputs = Inputs::FeaturesAndCommit(vec![i1, i2]);
+		let (b, n) = enc::<_, 68>(&inputs, v);
+		if v.value() >= 3 {
+			check!(n == 66, "v3+: 33 bytes per input");
+			let mut w1 = [0u8; 33];
+			let mut w2 = [0u8; 33];
+			w1.copy_from_slice(&b[0..33]);
+			w2.copy_from_slice(&b[33..66]);
+			let same = w1 == c1.0 && w2 == c2.0;
+			let swapped = w1 == c2.0 && w2 == c1.0;
+			check!(same || swapped, "exactly the two commitments are written");
+			let h1 = CommitWrapper::from(Commitment(w1)).hash();
+			let h2 = CommitWrapper::from(Commitment(w2)).hash();
+			check!(h1 <= h2, "v3+: commitments leave in ascending hash-of-commitment order (what the v3 reader accepts)");
+			cover!(swapped && c1.0 != c2.0, "order of the 34-byte inputs reversed on the v3 wire");
+			cover!(same && c1.0 != c2.0, "order kept");
+		} else {
+			check!(n == 68, "v1/v2: 34 bytes per input");
+			check!(b[0] == of(f1) as u8 && b[34] == of(f2) as u8, "v1/v2: feature bytes in place");
+			let mut w1 = [0u8; 33];
+			let mut w2 = [0u8; 33];
+			w1.copy_from_slice(&b[1..34]);
+			w2.copy_from_slice(&b[35..68]);
+			check!(w1 == c1.0 && w2 == c2.0, "v1/v2: the inputs travel as they are, in their own order");
+		}
+		core::mem::forget(inputs);
+	}
+}
+
+proof! {
+	fn sorted_unique_generic_4() {
+		// the canonical-form rule of every body list: VerifySortedAndUnique (generic over Ord,
+		// here on u64): Ok exactly for strictly ascending lists; the first offending pair
+		// decides between SortError and DuplicateError; lists of 0 and 1 entries are fine
+		use grin_core::ser::VerifySortedAndUnique;
+		let a: [u64; 4] = [nd::any(), nd::any(), nd::any(), nd::any()];
+		let n: usize = nd::any();
+		nd::assume(n <= 4);
+		let mut v: Vec<u64> = Vec::with_capacity(4);
+		let mut i = 0;
+		while i < 4 {
+			if i < n {
+				v.push(a[i]);
+			}
+			i += 1;
+		}
+		let r = v.verify_sorted_and_unique();
+		// definition: first index whose successor is not strictly greater
+		let mut bad: Option<usize> = None;
+		let mut i = 0;
+		while i + 1 < 4 {
+			if i + 1 < n && bad.is_none() && !(a[i] < a[i + 1]) {
+				bad = Some(i);
+			}
+			i += 1;
+		}
+		match bad {
+			None => check!(r.is_ok(), "strictly ascending lists are accepted"),
+			Some(i) => {
+				if a[i] == a[i + 1] {
+					check!(matches!(r, Err(ser::Error::DuplicateError)), "equal neighbours: DuplicateError");
+				} else {
+					check!(matches!(r, Err(ser::Error::SortError)), "descending neighbours: SortError");
+				}
+			}
+		}
+		cover!(n == 4 && bad == Some(2), "only the last pair offends");
+		cover!(n == 4 && r.is_ok(), "four ascending entries");
+		cover!(n == 3 && a[2] >= a[3] && r.is_ok(), "entries beyond the list are not looked at");
+		core::mem::forget(r);
+		core::mem::forget(v);
+	}
+}
+
+proof! {
+	[hash_mix] fn sorted_unique_short_ids_3() {
+		// the same rule on a hash-ordered consensus type (ShortId, as in compact blocks):
+		// accepted exactly when the identity hashes are strictly ascending
+		use grin_core::core::id::ShortId;
+		use grin_core::ser::VerifySortedAndUnique;
+		let b0: [u8; 6] = nd::any();
+		let b1: [u8; 6] = nd::any();
+		let b2: [u8; 6] = nd::any();
+		let v = vec![ShortId::from_bytes(&b0), ShortId::from_bytes(&b1), ShortId::from_bytes(&b2)];
+		let h0 = v[0].hash();
+		let h1 = v[1].hash();
+		let h2 = v[2].hash();
+		let r = v.verify_sorted_and_unique();
+		check!(r.is_ok() == (h0 < h1 && h1 < h2), "accepted exactly when strictly ascending by hash");
+		if b0 == b1 || (h0 < h1 && b1 == b2) {
+			check!(matches!(r, Err(ser::Error::DuplicateError)), "a repeated entry is a DuplicateError");
+		}
+		cover!(r.is_ok(), "ascending");
+		cover!(matches!(r, Err(ser::Error::SortError)), "unsorted");
+		core::mem::forget(r);
+		core::mem::forget(v);
+	}
+}
+
 pub const HARNESSES: &[(&str, fn())] = &[
 	("c10::kernel_features_roundtrip", kernel_features_roundtrip),
 	("c10::kernel_features_canonical", kernel_features_canonical),
 	("c10::txkernel_roundtrip_and_hash", txkernel_roundtrip_and_hash),
 	("c10::input_and_output_identifier_roundtrip", input_and_output_identifier_roundtrip),
 	("c10::input_canonical", input_canonical),
+	("c10::inputs_wire_order_by_version", inputs_wire_order_by_version),
+	("c10::sorted_unique_generic_4", sorted_unique_generic_4),
+	("c10::sorted_unique_short_ids_3", sorted_unique_short_ids_3),
 	("c10::body_inputs_roundtrip_v2_v3", body_inputs_roundtrip_v2_v3),
 ];
